@@ -140,7 +140,8 @@ def case(item):
     sts = spec_states(spec, n)
     samples = ["S%d" % i for i in range(dims)]
     if clustered:
-        data, crows = traces.clustered_setup(n, (1, 2, 1), dims=dims, grid=4, outlier_prob=0.2)
+        phantom = (sum(x for x in spec[1:] if isinstance(x, int)) + dims + (layout[0] if layout else 0)) % 2 == 0
+        data, crows = traces.clustered_setup(n, (1, 2, 1), dims=dims, grid=4, outlier_prob=0.2, phantom=phantom)
     else:
         data, crows = traces.named_data(n, dims=dims, grid=4, outlier_prob=0.2), None
     d = traces.scratch("c12_")
@@ -315,7 +316,7 @@ def large_case(item):
 def main(tier, seed):
     chk = Check("C12", tier, seed)
     chk.rule = ("every tree over n<=3 data points incl. every outlier subset (all-outlier, single-clone ...) and multisets whose consensus has empty clones, x "
-                "{unclustered, clustered with integer ids and sizes (1,2,1)} x samples {1,2} x {one chain, 2 or 3 chains stored in a completion order that does not start with chain 0}; each through map (both modes), consensus (both weightings), "
+                "{unclustered, clustered with integer ids and sizes (1,2,1), half of them with a further listed cluster that has no data point} x samples {1,2} x {one chain, 2 or 3 chains stored in a completion order that does not start with chain 0}; each through map (both modes), consensus (both weightings), "
                 "topology-report + archive; outputs decoded (table + Newick) and compared with the input mutation list, the trace's tree, feasibility and the "
                 "brute-force CCF optimum; end-to-end cases through the real command line (phyclone run -> map / consensus / topology-report on 1-4 mutations, clustered or not, 1-2 chains); non-trivial = tree with >= 2 clones or an outlier")
     chk.assumptions = ["Newick node labels are compared as strings with the table's clone_id", "an empty clone (consensus trees) has no table row"]
